@@ -1,0 +1,5 @@
+//go:build !verif
+
+package magic
+
+func verifReaderGet(buffered int) {}
